@@ -482,6 +482,10 @@ class TypeEval:
         if k == 'unk':
             d.complain('T-unknown', 'construct not understood by the value graph (%s)' % t[1], t)
             return TOP
+        if k in ('item', 'fieldof', 'projseq'):
+            # an opaque value (an unmodelled iterator item, a field of an opaque struct value): its type is not known
+            d.complain('T-unknown', 'opaque value (%s)' % k, t)
+            return TOP
         return d.int_()
 
     def cond(self, c):
